@@ -261,7 +261,11 @@ def ident_run(tier='quick'):
     notes = {}
     for n, f in table.items():
         if n.endswith('_impl'):
-            notes[n] = analyse(f, table, comb).get('notes', [])
+            r_ = analyse(f, table, comb)
+            notes[n] = r_.get('notes', [])
+            if r_.get('status') == 'unsupported':
+                # the lexer is written in a form the symbolic evaluation does not follow: nothing is known about it
+                notes[n] = [('unsupported', r_.get('reason', ''))]
     idr = A.ident_run(fns, table, comb, notes)
     pr = A.paired_run(fns)
     res = _pack('gvc.ident', [idr, pr], t0, samples=[dict(obligation='identifier lexers', keyword_checked=sorted(n for n, v in notes.items() if any(k == 'keyword-check' for k, _ in v)))])
